@@ -1,6 +1,9 @@
 #!/bin/sh
 # usage: tools/eval_all_seeds.sh [parallelism]   -- evaluates every seeded change (seeds of one property run one after the other)
+ROOT=$(cd "$(dirname "$0")/.." && pwd)
 par=${1:-4}
-cd /verif
-ls seeded | grep '^C[0-9][0-9]-' | sed 's/-.*//' | sort -u | xargs -P $par -I{} sh -c 'for n in $(ls /verif/seeded | grep "^{}-"); do /verif/tools/eval_seed.sh $n; done'
+cd $ROOT
+make -s setup >/dev/null 2>&1
+export ROOT
+ls seeded | grep '^C[0-9][0-9]-' | sed 's/-.*//' | sort -u | xargs -P $par -I{} sh -c 'for n in $(ls $ROOT/seeded | grep "^{}-"); do $ROOT/tools/eval_seed.sh $n; done'
 /venv/bin/python tools/seed_results.py
